@@ -34,6 +34,18 @@ CHECKS["C15"] = dict(
    technique="Coq proof (lia over floor-division calendar arithmetic) + differential correspondence vs chrono",
    ref="§5 C15")
 
+CHECKS["C16"] = dict(
+   text="Machine-checked proof over the code books, phenomenon/significance/originator tables regenerated from the built "
+        "crate on every run: the 61 hand-transcribed published codes decode and display as documented, every other "
+        "3-byte code takes the last-letter significance (structural, all values), wrong lengths and multi-byte tails are "
+        "Unrecognized/Unknown, no display string keeps a placeholder, significance order/numbers/letters, class "
+        "consistency, originator decoding. A changed table entry in the code breaks a theorem at re-check time. "
+        "Correspondence: every ASCII triple per swept first byte, edit neighbourhoods, multi-byte strings.",
+   note="Trusted: Coq kernel (vm_compute for the finite table facts); dump->Generated.v generator; phf/strum modelled as "
+        "tables; hand-transcribed spec tables; harness. No axioms.",
+   technique="Coq proof over regenerated tables (vm_compute for finite parts, structural for the fallback) + differential correspondence",
+   ref="§5 C16")
+
 NOT_APPLICABLE = {}
 
 def main():
